@@ -457,6 +457,35 @@ fn layout_script(r: &mut SimRng) -> Vec<PyCall> {
             }
         }
     }
+    if g.r.chance(0.06) {
+        // domain-end prologue: the only buy order rests at price 0 and / or the only sell order at 2^32-1 (where the grid
+        // contains it): the touch price then equals the value that stands for "no orders on this side", while the side's
+        // volumes, counts and level 0 are not empty
+        let mut ends: Vec<(bool, u32)> = vec![];
+        if g.r.chance(0.7) {
+            ends.push((true, 0));
+        }
+        if PMAX % tick == 0 && (ends.is_empty() || g.r.chance(0.5)) {
+            ends.push((false, PMAX));
+        }
+        if ends.is_empty() {
+            ends.push((true, 0));
+        }
+        for (bid, price) in ends {
+            let v = g.vol(bid);
+            let _ = g.m.create(bid, v, 4, Some(price));
+            g.calls.push(call("e", "place_order", vec![json!(bid), json!(v), json!(4), json!(price)]));
+            g.calls.push(PyCall { k: "np_limit_orders".into(), o: "n".into(), m: String::new(), a: vec![json!(vec![bid]), json!(vec![v]), json!(vec![4u32]), json!(vec![price])] });
+        }
+        g.calls.push(call("e", "step", vec![]));
+        g.calls.push(call("n", "step", vec![]));
+        for m in ["level_1_data_array", "level_2_data_array", "get_market_data"] {
+            g.calls.push(call("e", m, vec![]));
+        }
+        for m in ["level_1_data", "level_2_data", "get_market_data"] {
+            g.calls.push(call("n", m, vec![]));
+        }
+    }
     if g.r.chance(0.1) {
         // whale layouts: a few orders of 2^30 / 2^31 (recorded per-level series whose sums pass 2^32 within a few steps)
         g.whale = [3, 3];
@@ -551,6 +580,20 @@ fn layout_script(r: &mut SimRng) -> Vec<PyCall> {
         }
         for m in ["level_1_data", "level_2_data", "get_market_data"] {
             g.calls.push(call("n", m, vec![]));
+        }
+        // a trading halt and a resume between two steps change nothing the arrays speak about (element 0 is still the volume
+        // traded in the last step): read them while halted and again after the resume
+        if g.r.chance(0.12) {
+            for sw in ["disable_trading", "enable_trading"] {
+                g.calls.push(call("e", sw, vec![]));
+                g.calls.push(call("n", sw, vec![]));
+                for m in ["level_1_data_array", "level_2_data_array"] {
+                    g.calls.push(call("e", m, vec![]));
+                }
+                for m in ["level_1_data", "level_2_data"] {
+                    g.calls.push(call("n", m, vec![]));
+                }
+            }
         }
         if g.r.chance(0.5) {
             g.calls.push(PyCall { k: "df_orders".into(), o: "e".into(), m: String::new(), a: vec![] });
